@@ -41,3 +41,21 @@ package posting
 //@   ensures result.1 == nil ==> (forall i int :: {result.0[i]} 0 <= i && i < len(result.0) ==> result.0[i] != nil && validAccount(result.0[i].Account) && result.0[i].Commodity != nil)
 //@   loop 1 invariant len(builder) == $i && fresh(builder) && 0 <= $i && $i <= len(bs)
 //@   loop 1 invariant forall k int :: {builder[k]} 0 <= k && k < $i ==> validAccount(builder[k].Credit) && validAccount(builder[k].Debit) && builder[k].Commodity != nil
+//
+// Compare: lexicographic on (account, other account, quantity, value, commodity name) - a total order
+// whose only ties are postings that agree in all five (lemma post_cmp_tie).
+//@ def decCmp(x real, y real) int := x == y ? 0 : (x < y ? 0 - 1 : 1)
+//@ def postCmp(p *Posting, q *Posting) int := acctCmp(p.Account, q.Account) != 0 ? acctCmp(p.Account, q.Account)
+//@     : (acctCmp(p.Other, q.Other) != 0 ? acctCmp(p.Other, q.Other)
+//@     : (decCmp(p.Quantity, q.Quantity) != 0 ? decCmp(p.Quantity, q.Quantity)
+//@     : (decCmp(p.Value, q.Value) != 0 ? decCmp(p.Value, q.Value) : comCmp(p.Commodity, q.Commodity))))
+//@ def okPosting(p *Posting) bool := p != nil && p.Account != nil && p.Other != nil && p.Commodity != nil
+//@ def samePosting(p *Posting, q *Posting) bool := p.Account.accountType == q.Account.accountType && p.Account.name == q.Account.name
+//@     && p.Other.accountType == q.Other.accountType && p.Other.name == q.Other.name
+//@     && p.Quantity == q.Quantity && p.Value == q.Value && p.Commodity.name == q.Commodity.name
+//@ func Compare
+//@   requires okPosting(p) && okPosting(p2)
+//@   ensures [C06] [C05] @lex: result == postCmp(p, p2)
+//
+//@ lemma post_cmp_antisym: forall p *Posting, q *Posting :: okPosting(p) && okPosting(q) ==> postCmp(p, q) == 0 - postCmp(q, p)
+//@ lemma post_cmp_tie: forall p *Posting, q *Posting :: okPosting(p) && okPosting(q) ==> (postCmp(p, q) == 0 <==> samePosting(p, q))
